@@ -48,6 +48,20 @@ func Transcribe(seq Sequence) Sequence {
 	return WithBytes(seq, p)
 }
 
+// lowerBytes returns a copy of p with every ASCII upper case letter replaced by
+// its lower case form. Unlike bytes.ToLower it keeps every byte at its index
+// whatever the encoding, so an offset found in the copy is an offset of p.
+func lowerBytes(p []byte) []byte {
+	q := make([]byte, len(p))
+	for i, c := range p {
+		if 'A' <= c && c <= 'Z' {
+			c += 'a' - 'A'
+		}
+		q[i] = c
+	}
+	return q
+}
+
 // Match for an oligomer within a sequence. The ambiguous nucleotides in the
 // query sequence will match any of the respective nucleotides.
 func Match(seq Sequence, query Sequence) []Segment {
@@ -56,7 +70,7 @@ func Match(seq Sequence, query Sequence) []Segment {
 	}
 
 	b := strings.Builder{}
-	for _, c := range bytes.ToLower(query.Bytes()) {
+	for _, c := range lowerBytes(query.Bytes()) {
 		switch c {
 		case 't', 'u':
 			b.WriteString("[tu]")
@@ -88,7 +102,7 @@ func Match(seq Sequence, query Sequence) []Segment {
 	}
 
 	s := b.String()
-	p := bytes.ToLower(seq.Bytes())
+	p := lowerBytes(seq.Bytes())
 
 	re, err := regexp.Compile(s)
 	if err != nil {
